@@ -54,8 +54,19 @@ def rng_rule(prog: Program, res: Result, rule: str = "RNG") -> int:
     return n
 
 
+_MODULE_DEFS: dict = {}
+
+
 def _nested_return_call(fi_node: ast.FunctionDef):
-    for n in fi_node.body:
+    """(generator definition, the call whose value it returns): the generator is a nested function, or a module-level function that is
+    handed to from_function by name (a closure without free variables moved out of its only user)."""
+    cands = [n for n in fi_node.body if isinstance(n, ast.FunctionDef)]
+    for c in ast.walk(fi_node):
+        if isinstance(c, ast.Call) and (dotted(c.func) or "").endswith("from_function") and c.args and isinstance(c.args[0], ast.Name):
+            d = _MODULE_DEFS.get(c.args[0].id)
+            if d is not None and d not in cands:
+                cands.append(d)
+    for n in cands:
         if isinstance(n, ast.FunctionDef):
             for r in ast.walk(n):
                 if isinstance(r, ast.Return) and isinstance(r.value, ast.Call):
@@ -68,6 +79,10 @@ def _nested_return_call(fi_node: ast.FunctionDef):
 
 
 def gen_fill(prog: Program, res: Result) -> None:
+    _MODULE_DEFS.clear()
+    for q, f_ in prog.functions.items():
+        if not f_.parent and not f_.cls and f_.module in ("pyttb.tensor", "pyttb.sptensor"):
+            _MODULE_DEFS[f_.name] = f_.node
     want = {"tenones": ("ones", {}), "tenzeros": ("zeros", {}), "tenrand": ("uniform", {"low": 0, "high": 1})}
     for name, (fn, kws) in want.items():
         fi = prog.func(f"tensor.{name}")
@@ -95,7 +110,7 @@ def gen_fill(prog: Program, res: Result) -> None:
         if not ff or len(ff[0].args) < 2 or not (isinstance(ff[0].args[1], ast.Name) and ff[0].args[1].id == fi.params()[0]):
             problems.append("the requested shape is not passed on to from_function unchanged")
         if ff and not (isinstance(ff[0].args[0], ast.Name) and inner is not None and ff[0].args[0].id == inner.name):
-            problems.append("from_function does not receive the local generator")
+            problems.append("from_function does not receive the generator")
         if problems:
             res.bad("GEN-fill", fi.short, desc, prog.loc(fi, call), "; ".join(problems))
         else:
